@@ -33,10 +33,16 @@ def labelled_configs(tier):
         for hw in (False, True):
             out.append(bmm.cfg_make(size=(K,), levy=levy, tol=0.1, halfway=hw, cache_size=2))
             out.append(bmm.cfg_make(size=(K,), levy=levy, tol=0.1, halfway=hw, cache_size=2, given='W'))
+    # sample shape (B, K): rows are independent Brownian motions (labels idx*B + b per row)
+    for levy, cache, dt in itertools.product(['none', 'space-time'], [1, None], [None, 0.25]):
+        out.append(bmm.cfg_make(size=(2, K), levy=levy, cache_size=cache, dt=dt))
     out.append(bmm.cfg_make(size=(K,), levy='space-time', cache_size=2, via='r'))
     out.append(bmm.cfg_make(wrapper='tree', size=(K,), tol=0.01))
     out.append(bmm.cfg_make(wrapper='tree', size=(K,), tol=0.01, given='W'))
     out.append(bmm.cfg_make(wrapper='path', size=(K,), cache_size=None))
+    for levy, cache in itertools.product(['none', 'space-time'], [1, None]):
+        out.append(bmm.cfg_make(size=(K,), levy=levy, cache_size=cache, t0=-1., t1=1.))
+    out.append(bmm.cfg_make(size=(K,), levy='space-time', cache_size=2, dt=0.5, t0=1., t1=3., given='WH'))
     return out
 
 
@@ -47,6 +53,7 @@ def levy_configs():
         out.append(bmm.cfg_make(size=size, levy=levy, cache_size=cache, dt=dt))
     for levy in ['davie', 'foster']:
         out.append(bmm.cfg_make(size=(2, 2), levy=levy, tol=0.1, halfway=True, cache_size=2))
+        out.append(bmm.cfg_make(size=(2, 2), levy=levy, cache_size=2, t0=-1., t1=1.))
     return out
 
 
@@ -63,6 +70,7 @@ def run(tier, seed):
         grid = bmm.G4 if cfg['tol'] == 0 else bmm.G5
         if cfg['tol'] == 0.01:
             grid = [0., 0.13, 0.25, 0.5, 0.77, 1.0]
+        grid = bmm.shift_grid(grid, cfg['t0'], cfg['t1'])
         vis = 'mc.bm_invariants.given_visitor' if cfg['given'] != 'none' else 'mc.bm_invariants.law_visitor'
         units += ex.bfs_units(cfg, entropy, bmm.grid_ops(grid, zero=False), 2, mode='labelled', K=K,
                               given=given_tensors(cfg), visitor=vis, kinds=KINDS, opts=dict(grid=grid))
@@ -80,7 +88,7 @@ def run(tier, seed):
                               given=given_tensors(cfg), visitor=vis, kinds=KINDS,
                               opts=dict(grid=bmm.G4 if cfg['tol'] == 0 else bmm.G5))
     for cfg in levy_configs():
-        grid = bmm.G4 if cfg['tol'] == 0 else bmm.G5
+        grid = bmm.shift_grid(bmm.G4 if cfg['tol'] == 0 else bmm.G5, cfg['t0'], cfg['t1'])
         units += ex.bfs_units(cfg, entropy, bmm.grid_ops(grid, zero=False), 2 if tier == 'quick' else 3,
                               split=(tier != 'quick'), mode='real',
                               visitor='mc.bm_invariants.levy_identity_visitor', kinds=KINDS, opts=dict(grid=grid))
@@ -94,6 +102,8 @@ def run(tier, seed):
             units += ex.dev_units(cfg, entropy, N, D, nchunks=8 if D == 2 else 4, mode='labelled', K=1024,
                                   visitor='mc.bm_invariants.law_visitor', kinds=KINDS,
                                   opts=dict(grid=pg, max_leaves=12))
+    ex.selfcheck_determinism(entropy)
+    chk.count('determinism_selfcheck_passed')
     chk.count('work_units', len(units))
     for part in pmap(ex.run_unit, units):
         chk.merge(part)
